@@ -17,8 +17,8 @@ FLOOR = 1e-6          # errors below this fraction of the peak are rounding nois
 
 
 # ------------------------------------------------------------------ profiles: r, dr → (f, P) closed form
-def fam_gauss(n, dr, off=0.0):
-    r = (np.arange(n) + off) * dr
+def fam_gauss(n, dr, off=0.0, r=None):
+    r = (np.arange(n) + off) * dr if r is None else r
     R = (n - 1) * dr
     s1, s2 = R / 3.5, R / 4          # ≥ 6 px already at n = 25, < 1e-5 of the peak at the edge; same physical distribution at every n
     f = np.exp(-r ** 2 / s1 ** 2) + 0.5 * np.exp(-r ** 2 / s2 ** 2)
@@ -26,16 +26,16 @@ def fam_gauss(n, dr, off=0.0):
     return f, P
 
 
-def fam_bump(n, dr, off=0.0, p=3):
-    r = (np.arange(n) + off) * dr
+def fam_bump(n, dr, off=0.0, p=3, r=None):
+    r = (np.arange(n) + off) * dr if r is None else r
     R = 0.8 * (n - 1) * dr
     u = np.clip(1 - r ** 2 / R ** 2, 0, None)
     return u ** p, R * Beta(0.5, p + 1) * u ** (p + 0.5)
 
 
-def fam_ring(n, dr, off=0.0):
+def fam_ring(n, dr, off=0.0, r=None):
     """Gaussian ring; projection by Gauss–Legendre line-of-sight quadrature (independent of PyAbel)"""
-    r = (np.arange(n) + off) * dr
+    r = (np.arange(n) + off) * dr if r is None else r
     R = (n - 1) * dr
     r0, w = 0.4 * R, R / 6
     f = np.exp(-(r - r0) ** 2 / w ** 2)
@@ -70,6 +70,12 @@ def ring_image(n, order2, b4=0.0, b6=0.0):
     return f, P
 
 
+def stretch_grid(n, dr):
+    """monotone grid on [0, (n-1) dr] whose cells grow linearly from dr/2 to 3 dr/2"""
+    t = np.arange(n) / (n - 1)
+    return (n - 1) * dr * (0.5 * t + 0.5 * t * t)
+
+
 def region(n):
     return slice(max(3, n // 10), n - max(3, n // 8))
 
@@ -84,6 +90,8 @@ def half_cases():
         add(f"daun/degree={deg}", abel.daun.daun_transform, dict(degree=deg, verbose=False), True)
     for reg in (("diff", 1.0), ("L2", 1.0), ("L2c", 1.0), "nonneg"):
         add(f"daun/degree=1,reg={reg}", abel.daun.daun_transform, dict(degree=1, reg=reg, verbose=False), reg == "nonneg")
+    for reg, deg in ((("diff", 0), 1), (("L2", 0.0), 2), (("L2c", 0), 0)):          # a named regulariser of zero strength is no regularisation
+        add(f"daun/degree={deg},reg={reg}", abel.daun.daun_transform, dict(degree=deg, reg=reg, verbose=False), False)
     add("hansenlaw/hold=0", abel.hansenlaw.hansenlaw_transform, dict(hold_order=0), True)
     add("hansenlaw/hold=1", abel.hansenlaw.hansenlaw_transform, dict(hold_order=1), True)
     add("direct/corr", lambda x, **k: abel.direct.direct_transform(x, backend="python", **k), dict(correction=True), True)
@@ -96,6 +104,10 @@ def half_cases():
     def direct_halfgrid(x, dr=1.0, **k):                   # explicit uniform r grid that does not start at 0 (pixel centres)
         return abel.direct.direct_transform(x, backend="python", r=(np.arange(x.shape[-1]) + 0.5) * dr, **k)
     add("direct/halfgrid", direct_halfgrid, dict(correction=True), True)
+
+    def direct_stretchgrid(x, dr=1.0, **k):                # explicit non-uniform r grid (cells from 0.5 dr to 1.5 dr)
+        return abel.direct.direct_transform(x, backend="python", r=stretch_grid(x.shape[-1], dr), **k)
+    add("direct/stretchgrid", direct_stretchgrid, dict(correction=True), True)
     add("onion_bordas/shift", abel.onion_bordas.onion_bordas_transform, dict(shift_grid=True), False)
     add("onion_bordas/noshift", abel.onion_bordas.onion_bordas_transform, dict(shift_grid=False), False)
     add("onion_peeling", abel.dasch.onion_peeling_transform, dict(basis_dir=None), False)
@@ -116,7 +128,7 @@ def measure(sizes, dr_values=(1.0,), with_images=True, nonneg_max_n=60, only=Non
                 if "nonneg" in name and n > nonneg_max_n:
                     continue
                 for dr in dr_values:
-                    src, proj = mk(n, dr, 0.5 if name.endswith("/halfgrid") else 0.0)
+                    src, proj = mk(n, dr, 0.5 if name.endswith("/halfgrid") else 0.0, r=stretch_grid(n, dr) if name.endswith("/stretchgrid") else None)
                     sl = region(n)
                     amp = np.array([1.0, 0.5, 2.0])[:, None]        # several rows, each its own amplitude
                     rows = amp * proj[None, :]
@@ -389,7 +401,7 @@ def random_cases(rng, count):
 
 def measure_random(rng, count, direction, nonneg_max_n=60):
     out = []
-    cases = [c for c in half_cases() if not c[0].endswith("/halfgrid")]       # (the random profiles are sampled on grids starting at 0)
+    cases = [c for c in half_cases() if not c[0].endswith(("/halfgrid", "/stretchgrid"))]       # (the random profiles are sampled on uniform grids starting at 0)
     for kind, n, dr, par, src, proj in random_cases(rng, count):
         name, f, opts, fwd = cases[int(rng.integers(0, len(cases)))]
         if direction == "forward" and not fwd:
